@@ -88,6 +88,7 @@ def periodic_voltage_source(source: ccp.Component, w: float = 0, w_resolution: f
     w0 = float(source.value['w'])
     V = float(source.value['V'])
     phi = float(source.value['phi'])
+    R = float(source.value['R'])
     frequency_properties = fourier_series(periodic_function(wavetype)(period=2*np.pi/w0, amplitude=V, phase=phi))
     n = np.round(w/w0)
     delta_n = np.abs(w/w0 - n)
@@ -101,7 +102,8 @@ def periodic_voltage_source(source: ccp.Component, w: float = 0, w_resolution: f
         nodes=(source.nodes[0], source.nodes[1]),
         w=w,
         phi=frequency_properties.phase(n),
-        V=frequency_properties.amplitude(n)
+        V=frequency_properties.amplitude(n),
+        R=R
     )
     return ac_voltage_source(single_frequency_source, w, w_resolution)
 
@@ -152,6 +154,7 @@ def periodic_current_source(source: ccp.Component, w: float = 0, w_resolution: f
     w0 = float(source.value['w'])
     I = float(source.value['I'])
     phi = float(source.value['phi'])
+    G = float(source.value['G'])
     frequency_properties = fourier_series(periodic_function(wavetype)(period=2*np.pi/w0, amplitude=I, phase=phi))
     n = np.round(w/w0)
     delta_n = np.abs(w/w0 - n)
@@ -165,7 +168,8 @@ def periodic_current_source(source: ccp.Component, w: float = 0, w_resolution: f
         nodes=(source.nodes[0], source.nodes[1]),
         w=w,
         phi=frequency_properties.phase(n),
-        I=frequency_properties.amplitude(n)
+        I=frequency_properties.amplitude(n),
+        G=G
     )
     return ac_current_source(single_frequency_source, w, w_resolution)
 
